@@ -214,6 +214,12 @@ def rule_once_per_ballot(ctx: Ctx) -> None:
         app = [c for c in calls_in(hp.node) if isinstance(c.func, ast.Attribute) and c.func.attr == "append" and "self._phase1_responses" in unparse(c.func.value)]
         ok = len(app) == 1 and not always_before(ctx, hp, lambda x: x is node_of(ff.cfg, app[0]), lambda x: x is node) and ff.holds_at(node_of(ff.cfg, app[0]), Fact("in", "ballot_number", "self._phase1_responses"))
         ctx.ob("C12-4", "G2", hp, app[0] if app else None, ok, f"{cname}: a promise is tallied once, only for a ballot this node started, before the quorum test")
+        # ... and, for the log-based variants, only while that candidacy is still the node's current ballot: after adopting a competitor's
+        # higher ballot, late promises for the own older ballot must not make the node lead (it would lead under the competitor's ballot)
+        if cname != "PaxosNode":
+            cur = ff.holds_at(node, Fact("eq", "self._current_ballot", "Ballot(ballot_number, self.name)")) or ff.holds_at(node, Fact("eq", "Ballot(ballot_number, self.name)", "self._current_ballot"))
+            ctx.ob("C12-4", "G1", hp, calls[0], bool(cur), f"{cname}: `{action}` is reached only if the ballot the promises are for is still this node's current ballot "
+                   "(`self._current_ballot == Ballot(ballot_number, self.name)`); an overtaken candidacy never takes over")
         # ... and under the ballot the *message* names: a late promise for an abandoned ballot must not count for the current candidacy
         key = app[0].func.value.slice if app and isinstance(app[0].func.value, ast.Subscript) else None
         kexp = expand(key, single_defs(hp)) if key is not None else None
@@ -511,6 +517,39 @@ def rule_accept_files_under_its_slot(ctx: Ctx) -> None:
     need(n >= 4, f"C12-14: expected >= 4 append sites in the two _handle_accept handlers, found {n}")
 
 
+def rule_abandoned_ballot(ctx: Ctx) -> None:
+    """C12-15: single-decree Paxos keeps per-ballot state (value, promise tally, accept tally) in three dicts.  A ballot given up by a retry
+    loses all three together, and an Accepted is counted only for a ballot that still has a tally — otherwise late Accepteds of the old
+    ballot complete its quorum and the node decides `_proposed_values.get(old)` = None, a value nobody proposed."""
+    prog = ctx.prog
+    rt = prog.func(PAX, "PaxosNode._handle_retry")
+    rf = ctx.flow(rt)
+    dels = [n_ for n_ in rf.cfg.nodes if n_.kind == "stmt" and ((isinstance(n_.ast, ast.Delete) and any(unparse(t_).replace(" ", "") == "self._proposed_values[original_ballot]" for t_ in n_.ast.targets))
+            or any(path_of(k.func) == "self._proposed_values.pop" and k.args and path_of(k.args[0]) == "original_ballot" for k in calls_in(n_.ast)))]
+    need(len(dels) == 1, "C12-15: _handle_retry should give up the old ballot's value at exactly one site")
+
+    def drops(nd, table):
+        return nd.kind == "stmt" and ((isinstance(nd.ast, ast.Delete) and any(unparse(t_).replace(" ", "") == f"self.{table}[original_ballot]" for t_ in nd.ast.targets))
+                                      or any(path_of(k.func) == f"self.{table}.pop" and k.args and path_of(k.args[0]) == "original_ballot" for k in calls_in(nd.ast)))
+    for table in ("_phase1_responses", "_phase2_responses"):
+        bad = []
+        for p_ in enumerate_paths(rf, dels[0], stop=lambda x: x is rf.cfg.exit):
+            if p_.end == "raise":
+                continue
+            if not any(drops(nd, table) for nd in p_.nodes):
+                bad.append(p_.describe()[:80])
+        ctx.ob("C12-15", "G2", rt, dels[0].ast, not bad, f"PaxosNode._handle_retry: giving up a ballot's value also drops its `{table}` entry on every path (the ballot is dead: nothing may act for it later)")
+    ha = prog.func(PAX, "PaxosNode._handle_accepted")
+    hf = ctx.flow(ha)
+    creates = [s_ for s_ in walk_stmts(ha.node.body) if isinstance(s_, ast.Assign) and unparse(s_.targets[0]).replace(" ", "").startswith("self._phase2_responses[")]
+    incs = [n_ for n_ in hf.cfg.nodes if n_.kind == "stmt" and isinstance(n_.ast, ast.AugAssign) and unparse(n_.ast.target).replace(" ", "").startswith("self._phase2_responses[")]
+    ok = not creates and len(incs) == 1 and hf.holds_at(incs[0], Fact("in", "ballot_number", "self._phase2_responses"))
+    ctx.ob("C12-15", "G1", ha, incs[0].ast if incs else None, ok, "PaxosNode._handle_accepted counts an Accepted only for a ballot that has a tally (one it is running); it never creates a tally for an unknown or abandoned ballot")
+    decs = [c for c in calls_in(ha.node) if path_of(c.func) == "self._decide"]
+    okd = len(decs) == 1 and incs and not always_before(ctx, ha, lambda x: x is incs[0], lambda x: x is node_of(hf.cfg, decs[0]))
+    ctx.ob("C12-15", "G2", ha, decs[0] if decs else None, bool(okd), "PaxosNode decides only on a path that counted this Accepted for a running ballot")
+
+
 def run(ctx: Ctx) -> None:
     ctx.guarded(rule_ballot_order)
     ctx.guarded(rule_acceptor)
@@ -524,10 +563,15 @@ def run(ctx: Ctx) -> None:
     ctx.guarded(rule_leader_keeps_leading)
     ctx.guarded(rule_slots_only_by_leader)
     ctx.guarded(rule_accept_files_under_its_slot)
+    ctx.guarded(rule_abandoned_ballot)
     ctx.guarded(rule_schema)
 
 
 MUTANTS = [
+    ("multipaxos-overtaken-candidacy-takes-over", MP, '        if self._current_ballot != Ballot(ballot_number, self.name):\n            # This candidacy has been overtaken (a higher ballot was adopted\n            # since): its late promises must not make this node lead.\n            return []\n', "", "C12-4"),
+    ("flexible-overtaken-candidacy-takes-over", FP, '        if self._current_ballot != Ballot(ballot_number, self.name):\n            # This candidacy has been overtaken (a higher ballot was adopted\n            # since): its late promises must not make this node lead.\n            return []\n', "", "C12-4"),
+    ("paxos-retry-keeps-old-accept-tally", PAX, "            self._phase2_responses.pop(original_ballot, None)\n", "", "C12-15"),
+    ("paxos-accepted-creates-tally", PAX, "            # Not a ballot this node is running: never started here, or given\n            # up by a retry (its value has moved on to the new ballot).\n            return []\n", "            self._phase2_responses[ballot_number] = 0\n", "C12-15"),
     ("flexible-promise-tallied-under-current-ballot", FP, "        ballot_number = metadata[\"ballot_number\"]\n", "        ballot_number = self._current_ballot.number\n", "C12-4"),
     ("multipaxos-accept-fills-gap", MP, '        if slot > self._log.last_index + 1:\n            # An earlier slot has not arrived yet: appending would file this\n            # command under the wrong slot. Wait until the gap is filled.\n            return []\n', "", "C12-14"),
     ("flexible-accept-fills-gap", FP, '        if slot > self._log.last_index + 1:\n            # An earlier slot has not arrived yet: appending would file this\n            # command under the wrong slot. Wait until the gap is filled.\n            return []\n', "", "C12-14"),
